@@ -487,6 +487,32 @@ fn run_c20(seed: u64, rounds: usize) -> Report {
     rep
 }
 
+/// inode of a LISTEN socket on 127.0.0.1:<port> that is open in this very process
+fn own_listen_inode(port: u16) -> Option<u64> {
+    let tcp = std::fs::read_to_string("/proc/self/net/tcp").ok()?;
+    let want = format!(":{:04X}", port);
+    let mut inodes = vec![];
+    for line in tcp.lines().skip(1) {
+        let f: Vec<&str> = line.split_whitespace().collect();
+        if f.len() > 9 && f[1].ends_with(&want) && f[3] == "0A" {
+            if let Ok(i) = f[9].parse::<u64>() {
+                inodes.push(i);
+            }
+        }
+    }
+    for e in std::fs::read_dir("/proc/self/fd").ok()?.flatten() {
+        if let Ok(t) = std::fs::read_link(e.path()) {
+            let t = t.to_string_lossy().to_string();
+            for i in &inodes {
+                if t == format!("socket:[{i}]") {
+                    return Some(*i);
+                }
+            }
+        }
+    }
+    None
+}
+
 /// C17 over TLS: idle keep-alive TLS connections must not hold up shutdown;
 /// a started handler whose client stays still gets its response.
 fn run_c17(seed: u64, rounds: usize) -> Report {
@@ -555,8 +581,10 @@ fn run_c17(seed: u64, rounds: usize) -> Report {
         });
         let wit = |extra: serde_json::Value| json!({"seed": seed, "round": r, "mode": mode_tag, "transport": "tls",
             "idle_keep_alive_connections": k, "handshake_only_connections": j, "detail": extra});
+        let mut closed_ok = false;
         match rx.recv_timeout(Duration::from_secs(15)) {
             Ok(res) => {
+                closed_ok = true;
                 rep.count("close_returned_with_idle_tls_clients_connected", 1);
                 if res.is_err() {
                     rep.violate("C17:tls:close-returned-error", wit(json!({"result": format!("{res:?}")})));
@@ -576,10 +604,20 @@ fn run_c17(seed: u64, rounds: usize) -> Report {
                 }
             }
         }
-        // the port must refuse now
-        if TcpStream::connect_timeout(&srv.addr, Duration::from_secs(2)).is_ok() {
-            // something listens: only a violation if it is still this server (cannot tell cheaply) => count
-            rep.count("port_answered_after_close", 1);
+        // the port must refuse now.  A listening socket on the old port that still
+        // belongs to THIS process (no other harness server runs in it at this moment)
+        // is the old server's.
+        if closed_ok {
+            std::thread::sleep(Duration::from_millis(20));
+            if let Some(inode) = own_listen_inode(srv.addr.port()) {
+                rep.violate(
+                    "C17:tls:port-still-listening-after-close",
+                    wit(json!({"port": srv.addr.port(), "listen_socket_inode": inode,
+                               "connect_after_close": TcpStream::connect_timeout(&srv.addr, Duration::from_secs(2)).is_ok()})),
+                );
+            } else {
+                rep.count("port_released_after_close", 1);
+            }
         }
         drop(held);
     }
